@@ -321,8 +321,20 @@ pub(crate) fn mutate_response(rng: &mut Rng, base: &Resp, chain: &SynChain, fork
                 let other_root = fork.packed_vheader(last_n).parent_chain_root();
                 r.last = r.last.clone().as_builder().parent_chain_root(other_root).build();
                 r.headers = numbers.iter().map(|n| fork.packed_vheader(*n)).collect();
-                r.proof = fork.proof(last_n, &numbers).into_iter().collect();
-                "other-branch-under-uncommitted-chain-root"
+                // the headers next to the tip stay the genuine ones (they must chain up to the requested last header); all
+                // headers further down come from the other branch, under a chain root forged to commit to exactly this mix
+                let keep_from = numbers.iter().rev().zip((0..last_n).rev()).take_while(|(a, b)| **a == *b).map(|(a, _)| *a).last().unwrap_or(last_n);
+                let from_other = |i: u64| i < keep_from && i < fork.len() && fork.headers[i as usize].hash() != chain.headers[i as usize].hash();
+                if numbers.iter().any(|n| from_other(*n)) {
+                    let (root, proof) = chain.hybrid_root_and_proof(fork, last_n, &from_other, &numbers);
+                    r.last = r.last.clone().as_builder().parent_chain_root(root).build();
+                    r.headers = numbers.iter().map(|n| if from_other(*n) { fork.packed_vheader(*n) } else { chain.packed_vheader(*n) }).collect();
+                    r.proof = proof;
+                    "other-branch-under-uncommitted-chain-root"
+                } else {
+                    r.proof = fork.proof(last_n, &numbers).into_iter().collect();
+                    "other-branch-under-uncommitted-chain-root"
+                }
             } else { r.headers.clear(); "no-headers" }
         }
         0 if nh > 0 => { let k = rng.below(nh) as usize; r.headers.remove(k); "drop-header" }
